@@ -185,7 +185,11 @@ def gen_value(rng, key, strings):
     if kind == 'logtype':
         return rng.choice(list(LOG_TYPES))
     if kind == 'bt':
-        return [{'iu': rng.randbytes(16), 'io': rng.randrange(1 << 40)} for _ in range(rng.randrange(0, 4))]
+        frames = [{'iu': rng.randbytes(16), 'io': rng.randrange(1 << 40)} for _ in range(rng.randrange(0, 4))]
+        if frames and rng.random() < 0.4:
+            # recursion: the same frame again - a binary plist stores it once and both places get the SAME dict object
+            frames.insert(rng.randrange(len(frames) + 1), rng.choice(frames))
+        return frames
     if kind == 'lc':
         return {'c': rng.randrange(1 << 20), 's': rng.randrange(4)}
     if kind == 'dm':
@@ -359,9 +363,12 @@ def compare(decoded, exp):
 _ORDER = random.Random(20261003)
 
 
-def reordered(obj, how):
+def reordered(obj, how, memo=None):
     """The same plist value with the keys of every dict in another order (a dump's writer need not sort them: binary
     plists written by the kernel side list keys in hash order).  how: 'as-is', 'sorted', 'reversed', 'shuffled'."""
+    memo = {} if memo is None else memo          # an object referenced twice stays ONE object in the copy
+    if id(obj) in memo:
+        return memo[id(obj)]
     if isinstance(obj, dict):
         keys = list(obj)
         if how == 'sorted':
@@ -370,9 +377,14 @@ def reordered(obj, how):
             keys.reverse()
         elif how == 'shuffled':
             _ORDER.shuffle(keys)
-        return {k: reordered(obj[k], how) for k in keys}
+        out = memo[id(obj)] = {}
+        for k in keys:
+            out[k] = reordered(obj[k], how, memo)
+        return out
     if isinstance(obj, list):
-        return [reordered(x, how) for x in obj]
+        out = memo[id(obj)] = []
+        out.extend(reordered(x, how, memo) for x in obj)
+        return out
     return copy.deepcopy(obj)
 
 
